@@ -14,6 +14,9 @@ INVARIANT InvPctScale
 INVARIANT InvInfinity
 INVARIANT InvNormBounds
 INVARIANT InvMarginConsistent
+INVARIANT InvOrderIrrelevant
+INVARIANT InvConstAnswerAllSamples
+INVARIANT InvMulShortcut
 INVARIANT InvFailableMonotone
 INVARIANT InvAllMiss
 INVARIANT InvAllMissRejected
